@@ -1,17 +1,6 @@
 \* quick: shape library (import-less package, repeated instantiation, type items, compound tuple), pre-registered, creation operations only, at most 4 nodes, 5 operations
 CONSTANTS
-  Pkgs <- L_shape_Pkgs
-  PkgKey <- L_shape_PkgKey
-  PkgImports <- L_shape_PkgImports
-  PkgExports <- L_shape_PkgExports
-  KindTab <- L_shape_Kinds
-  ImportNames <- L_shape_ImportNames
-  ExportNames <- L_shape_ExportNames
-  DefNames <- L_shape_DefNames
-  ValidNames <- L_shape_ValidNames
-  DefClass <- L_shape_DefClass
-  DefDeps <- L_shape_DefDeps
-  NameInfo <- L_shape_NameInfo
+  LibName = "shape"
   NodeIds = {1, 2, 3, 4}
   OpKinds = {"import", "instantiate", "alias", "set_arg", "export", "set_name"}
   InitReg = {"pd", "pe"}
